@@ -379,10 +379,12 @@ theorem allG : ∀ fuel, AllG fuel := by
       unfold startOpX at h
       try simp only [] at h
       split at h
-      · refine ih.stem _ _ _ _ _ h ht hc hL hM hS hG ?_
-        intro e he
-        obtain ⟨o, ho⟩ := hG.sg.reg e he
-        exact ⟨o, ho, Or.inr he⟩
+      · split at h
+        · exact ih.fin _ _ _ _ _ h ht hL (notok (by decide)) (notok (by decide)) hM hS hG
+        · refine ih.stem _ _ _ _ _ h ht hc hL hM hS hG ?_
+          intro e he
+          obtain ⟨o, ho⟩ := hG.sg.reg e he
+          exact ⟨o, ho, Or.inr he⟩
       · have hns : "raised:RuntimeError" = "ok" → t.cur = some Op.stop → Sent s.hist := notok (by decide)
         split at h
         · exact ih.fin _ _ _ _ _ h ht hL (notok (by decide)) hns hM hS hG
